@@ -7,7 +7,8 @@ private copy of /verif redirected to that worktree. Every check must stay silent
 /verif/refactors/<PROP>-<N>/ (patch.diff, report.md, meta.json)."""
 import concurrent.futures, json, os, shutil, subprocess, sys, time
 V = os.path.dirname(os.path.dirname(os.path.abspath(__file__)))
-SRC = "/tmp/verif-snap" if os.path.isdir("/tmp/verif-snap") and "--live" not in sys.argv else V  # a clean snapshot of the committed tree while people edit /verif
+SNAP = os.environ.get("VERIF_SNAP", "/tmp/verif-snap")
+SRC = SNAP if os.path.isdir(SNAP) and "--live" not in sys.argv else V  # a clean snapshot of the committed tree while people edit /verif
 ENV = dict(os.environ, GOFLAGS="-mod=mod", GOPROXY="off", GOSUMDB="off", GOTOOLCHAIN="local")
 
 
